@@ -114,7 +114,7 @@ Fixpoint pipe_out_eqb (a b : pipe_out) : bool :=
   | _, _ => false
   end.
 
-Definition b2n (b : bool) (v : nat) : nat := if b then 0%nat else v.
+Definition b2n (b : bool) (v : N) : N := if b then 0 else v.
 
 Fixpoint resolve_dec (segs : list (list msg)) (dec : list (dref * N)) : pipe_out :=
   match dec with
@@ -125,7 +125,7 @@ Fixpoint resolve_dec (segs : list (list msg)) (dec : list (dref * N)) : pipe_out
       :: resolve_dec (match segs with [] => [] | _ :: r => r end) t
   end.
 
-Definition framing_verdict (c : fcase) : nat :=
+Definition framing_verdict (c : fcase) : N :=
   match c with
   | FPipe lim alg segs enc stream lens marks dec =>
       let segs' := map expand_msgs segs in
@@ -139,7 +139,7 @@ Definition framing_verdict (c : fcase) : nat :=
         (lim =? go_max_message_size)
         && bytes_eqb (encode_all_fast (concat segs')) e
         && pipe_out_eqb (model_pipe go_dconf go_d_init segfrags) dec' in
-      Nat.add (Nat.add (b2n corr 1) (b2n (check_pipe segs' dec') 2)) (b2n wf 8)
+      b2n corr 1 + b2n (check_pipe segs' dec') 2 + b2n wf 8
   | FRaw lim stream lens dec code consumed alloc_small =>
       let s := expand stream in
       let dec' := expand_msgs dec in
@@ -151,7 +151,7 @@ Definition framing_verdict (c : fcase) : nat :=
         (lim =? go_max_message_size)
         && msgs_eqb ms dec' && (mcode =? code) && (Model.Framing.consumed st' =? consumed)
         && (if mcode =? 4 then alloc_small else true) in
-      Nat.add (Nat.add (b2n corr 1) (b2n (check_raw lim s (dec', code)) 2)) (b2n wf 8)
+      b2n corr 1 + b2n (check_raw lim s (dec', code)) 2 + b2n wf 8
   | FWireSrc side order n1 n2 =>
       b2n (order_matches order go_flush_order
            && (n1 =? go_control_stream_buffer) && (n2 =? go_control_stream_buffer)) 1
@@ -161,14 +161,15 @@ Definition framing_verdict (c : fcase) : nat :=
          above it rejected with "message size too large" *)
       let good := if size <=? lim then (code =? 0) && intact else (code =? 4) in
       let mgood := if size <=? go_max_message_size then (code =? 0) && intact else (code =? 4) in
-      Nat.add (b2n ((lim =? go_max_message_size) && mgood) 1) (b2n good 2)
+      b2n ((lim =? go_max_message_size) && mgood) 1 + b2n good 2
   end.
 
-Fixpoint framing_failures (i : nat) (cs : list fcase) : list (nat * nat) :=
+(* Index and verdict are printed as N: the case files keep N_scope open, and
+   the driver reads plain "(index, verdict)" pairs. *)
+Fixpoint framing_failures (i : N) (cs : list fcase) : list (N * N) :=
   match cs with
   | [] => []
-  | c :: t => match framing_verdict c with
-              | O => framing_failures (S i) t
-              | v => (i, v) :: framing_failures (S i) t
-              end
+  | c :: t => let v := framing_verdict c in
+              if v =? 0 then framing_failures (N.succ i) t
+              else (i, v) :: framing_failures (N.succ i) t
   end.
